@@ -70,6 +70,10 @@ func End() []Call {
 
 //go:norace
 func record(op, path string) (fail bool) {
+	// A file-system call is a scheduling point: the OS may run another thread at any system
+	// call, and operations on files and handles conflict with each other (Close vs Read,
+	// Rename vs Open) without any lock of the program being involved.
+	vsched.Yield("fs:" + op)
 	lk()
 	defer ulk()
 	if !logging {
@@ -184,10 +188,54 @@ func CreateTemp(dir, pattern string) (*File, error) {
 	return wrap(os.CreateTemp(dir, pattern))
 }
 
+// Read, ReadAt, Seek and Close are scheduling points too (see record).
+func (f *File) Read(p []byte) (int, error) {
+	vsched.Yield("file:read")
+	return f.File.Read(p)
+}
+
+func (f *File) ReadAt(p []byte, off int64) (int, error) {
+	vsched.Yield("file:readat")
+	return f.File.ReadAt(p, off)
+}
+
+func (f *File) Seek(offset int64, whence int) (int64, error) {
+	vsched.Yield("file:seek")
+	return f.File.Seek(offset, whence)
+}
+
+func (f *File) Close() error {
+	vsched.Yield("file:close")
+	return f.File.Close()
+}
+
+// WriteTo must not bypass Read (io.Copy prefers WriterTo).
+func (f *File) WriteTo(w io.Writer) (int64, error) {
+	buf := make([]byte, 32*1024)
+	var total int64
+	for {
+		n, err := f.Read(buf)
+		if n > 0 {
+			m, werr := w.Write(buf[:n])
+			total += int64(m)
+			if werr != nil {
+				return total, werr
+			}
+		}
+		if err == io.EOF {
+			return total, nil
+		}
+		if err != nil {
+			return total, err
+		}
+	}
+}
+
 // Write applies the write-limit part of the plan.
 //
 //go:norace
 func (f *File) Write(p []byte) (int, error) {
+	vsched.Yield("file:write")
 	lk()
 	lim := plan.WriteLimit
 	match := logging && lim >= 0 && (plan.WritePath == "" || plan.WritePath == baseName(f.Name()))
